@@ -642,8 +642,84 @@ def loaded_vs_built(ctx, seed, nrep):
                 return
 
 
+def dressed_file_case(ctx, seed):
+    """The same contents in other clothes: a file whose tracks hold immutable messages (mido.frozen), and a file whose
+    messages have already been used for something else - encoded, printed, hashed as frozen twins, under the default
+    charset - before they were put into a file with a charset of its own.  Every observation, repeated, equals that of
+    a fresh plain twin, and leaves the contents alone."""
+    from .. import abuse
+    import mido.frozen as fz
+    rng = random.Random(seed)
+    cs = rng.choice(('latin1', 'utf-8', 'utf-8', 'cp1252', 'utf-16-le'))
+    dress = rng.choice(('frozen', 'handled-before', 'frozen-handled-before', 'frozen-one-object-in-two-files'))
+    case = {'kind': 'dressed', 'seed': seed, 'dress': dress, 'charset': cs}
+
+    def build():
+        mid = MidiFile(type=1, ticks_per_beat=rng2.choice((96, 480)), charset=cs)
+        for _ in range(rng2.randrange(1, 4)):
+            tr = rand_track(rng2)
+            for _ in range(rng2.randrange(0, 3)):
+                tr.insert(rng2.randrange(len(tr) + 1), MetaMessage(rng2.choice(('text', 'marker', 'track_name', 'lyrics')),
+                                                                   time=rng2.choice((0, 5))))
+            mid.tracks.append(tr)
+        for tr in mid.tracks:
+            for i, m in enumerate(tr):
+                if m.type in ('text', 'marker', 'lyrics') and rng2.random() < 0.7:
+                    tr[i] = m.copy(text=rng2.choice(('caf\xe9', '\xfcber', '\xa3 5')))
+                elif m.type == 'track_name' and rng2.random() < 0.7:
+                    tr[i] = m.copy(name='\xc9tude')
+        return mid
+    rng2 = random.Random(seed + ':build')
+    plain = build()
+    rng2 = random.Random(seed + ':build')
+    dressed = build()
+    other = None
+    try:
+        if 'handled-before' in dress:
+            for tr in dressed.tracks:
+                for m in tr:
+                    abuse.handle(m)
+        if dress.startswith('frozen'):
+            abuse.freeze_tracks(dressed)
+            if 'handled-before' in dress:
+                for tr in dressed.tracks:
+                    for m in tr:
+                        m.bytes(), m.hex(), hash(m), str(m)
+        if dress == 'frozen-one-object-in-two-files':
+            # the very same immutable messages also sit in a file with another charset, which is saved first
+            other = MidiFile(type=1, ticks_per_beat=dressed.ticks_per_beat, charset='utf-8' if cs != 'utf-8' else 'latin1')
+            other.tracks = [MidiTrack(tr) for tr in dressed.tracks]
+            observe(other, 'save', seed)
+            observe(other, 'merged', seed)
+    except Exception as exc:
+        ctx.fail('observation == fresh twin', f'dressed:{dress}:{type(exc).__name__}', case, f'{type(exc).__name__}: {exc}')
+        return
+    strip = lambda r: eval(repr(r).replace("'Frozen", "'"))  # noqa: E731,S307  (class names of frozen messages)
+    before = contents(dressed)
+    obs_log = []
+    for i in range(rng.randrange(3, 8)):
+        what = rng.choice(('iter', 'length', 'merged', 'save', 'play', 'names', 'save', 'save-in-another-thread'))
+        obs_log.append(what)
+        a = observe(dressed, what, f'{seed}:{i}', consumer_edits=not dress.startswith('frozen') and rng.random() < 0.3)
+        b = observe(twin_of(plain), what, f'{seed}:{i}')
+        ctx.check('observation == fresh twin', strip(a) == strip(b), f'dressed:{dress.split("-")[0]}:{what}', case,
+                  lambda: {'observations': obs_log, 'dressed': repr(a)[:160], 'plain twin': repr(b)[:160]})
+        now = contents(dressed)
+        ctx.check('observation leaves the contents alone', now == before, f'dressed-contents:{dress.split("-")[0]}:{what}', case,
+                  lambda: {'observations': obs_log, 'diff': repr(first_diff(before, now))[:200]})
+        if strip(a) != strip(b) or now != before:
+            return
+
+
 def run(ctx):
     n = 0
+    nd = 60 if ctx.tier == 'quick' else 6000
+    for j in range(nd):
+        seed = f'{ctx.seed}:{ctx.shard}:d{j}'
+        dressed_file_case(ctx, seed)
+        ctx.nontrivial(('d', seed))
+        n += 1
+    ctx.extra('dressed_file_cases', nd)
     nh = 400 if ctx.tier == 'quick' else 40000
     maxsteps = 12 if ctx.tier == 'quick' else 40
     for j in range(nh):
@@ -663,7 +739,9 @@ def run(ctx):
 
 
 def replay(ctx, case):
-    if case['kind'] == 'loaded-vs-built':
+    if case['kind'] == 'dressed':
+        dressed_file_case(ctx, case['seed'])
+    elif case['kind'] == 'loaded-vs-built':
         loaded_vs_built(ctx, case['seed'], case['events'])
     else:
         history(ctx, case['seed'], case['maxsteps'])
